@@ -66,6 +66,17 @@ Fifth round (e) - the sub-agents were asked for changes in ONE of the two implem
 * **C13-e** (iscoroutinefunction() result cached per namespace and event): after the first event a handler of the other kind is registered for the same namespace and event and the event is sent again.
 * **C15-e** (CancelledError guard only for coroutine functions): a plain callable returning a coroutine that ends cancelled; and the harness now injects the relayed acknowledgement for the application callback's own id (it used the forwarding entry's id, under which the failing callback ran nested inside a guarded call).
 * **C19-e** (input_event.clear() moved behind the reconnection wait): the server greets every (re)connected client with an event right behind the CONNECT reply, receive() is aimed at the reconnection window, and the new clause `event_held_back`: in virtual time a receive() returns an event at the instant it is available, not when something else wakes it. The aimed receive() also exposed a defect of the unchanged SimpleClient (fix db7d673).
+
+Sixth round (f) - changes in the THREADED implementation only that depend on threads (C14: asyncio only, purely sequential). 12 of 18 missed at first; 9 of those are detected after strengthening, 3 are outside what their property quantifies over (marked "not claimed" in the table):
+
+* **C02-f / C06-f** (threaded Manager.trigger_callback: table dropped / id retired after the callback returns): C06 got callbacks that emit with another callback (chained), slow plain callbacks in the thread world, and the repeated ACK on a second channel while the first callback runs. C02-f is a change to `Manager.trigger_callback` and is reported by C06 (`--check C06`).
+* **C03-f / C07-f** (Manager.emit iterates the live room): C03's raced emit + membership change now also runs in the thread world under the random / PCT schedules (two application threads); C07-f is the same function and is reported by C03 (`--check C03`). With bytes in the payload the same race interleaves the frames of the binary packet with the other thread's frames - the defect already recorded under C05 - so raced emits in the thread world carry no bytes.
+* **C08-f** (connect(wait=True): comparison before clear(), flag trusted after the loop): C08's thread world now runs under free schedules too (binary frames are fed one at a time: the client's per-message handler threads start in order in reality).
+* **C09-f** (threaded Client._handle_ack removes the id after the callback): slow plain callbacks in the thread world with the repeated ACK in flight.
+* **C10-f** (connect() clears the abort event): shutdown() gets to run between the end of the back-off wait and the attempt proper.
+* **C14-f** (AsyncServer.disconnect() sends DISCONNECT after the handler): C04's disconnect handler optionally tells the namespace that the client left; the differential check compares the order at the departing peer.
+* **C15-f** (RedisManager subscribes once in initialize()): the fake broker can fail only the publishing connection (`publish_hiccup`), so the manager replaces its pubsub object while the listener's connection lives on; a junk message then restarts the listener on the unsubscribed object.
+* **C04-f, C12-f, C13-f**: thread races their properties do not quantify over (see the table). C20 is the property about thread schedules; it explores terminating actions on accepted sessions at manager-access (and, in part, source-line) granularity.
 """
 
 
@@ -85,7 +96,8 @@ def main():
             m['summary'].replace('|', '\\|').replace('\n', ' ')[:400],
             m.get('needs', '').replace('|', '\\|').replace('\n', ' ')[:300],
             'yes' if m.get('confirmed') else 'NO',
-            '; '.join(det) or 'NOT DETECTED'))
+            '; '.join(det) or ('NOT DETECTED - ' + m['not_claimed']
+                               if m.get('not_claimed') else 'NOT DETECTED')))
     out = [
         '# Changes written by independent sub-agents (given only the '
         'property text and a scratch worktree)',
@@ -105,8 +117,9 @@ def main():
     ] + rows + [NOTES]
     with open(os.path.join(ROOT, 'seeded', 'RESULTS.md'), 'w') as f:
         f.write('\n'.join(out))
-    print('%d changes, %d detected' % (
-        len(rows), sum('NOT DETECTED' not in r for r in rows)))
+    print('%d changes, %d detected, %d outside the property\'s quantifier'
+          % (len(rows), sum('NOT DETECTED' not in r for r in rows),
+             sum('NOT DETECTED - not claimed' in r for r in rows)))
 
 
 if __name__ == '__main__':
